@@ -864,8 +864,10 @@ def csv_to_merchants_content(csv_rules: List[Tuple]) -> str:
             lines.append("")
             continue
 
-        # Write rule block
-        lines.append(f"[{merchant}]")
+        # Write rule block. A CSV row may have an empty Merchant cell, but a rule needs a
+        # name ("[]" makes the whole file unloadable): name such a rule after its pattern.
+        rule_name = str(merchant).strip() or str(pattern).strip() or f"Rule {len(lines)}"
+        lines.append(f"[{rule_name}]")
         lines.append(f"match: {match_expr}")
         lines.append(f"category: {category}")
         lines.append(f"subcategory: {subcategory}")
